@@ -59,9 +59,10 @@ def snap(a):
 
 def layouts(r, A):
     """yield (layout name, array with the same values as A)"""
-    yield "C", np.ascontiguousarray(A).copy()
+    yield "C", np.ascontiguousarray(A).copy(order="C")
     if A.ndim == 2:
-        yield "F", np.asfortranarray(A).copy()
+        yield "F", np.array(A, order="F", copy=True)
+        yield "T-view", np.ascontiguousarray(A.T).copy(order="C").T      # transposed view of a C array (F-contiguous)
         big = np.zeros((A.shape[0] * 2, A.shape[1] * 2), dtype=A.dtype)
         big[::2, ::2] = A
         yield "strided", big[::2, ::2]
@@ -93,6 +94,12 @@ def bounds_forms(r, d, per_feature=True):
         lo3 = np.zeros(d, dtype=np.int64)
         up3 = np.ones(d, dtype=np.int64) * 2
         yield "int-arrays", (lo3, up3), [lo3, up3]
+        lo4 = np.array([0.25])
+        up4 = np.array([0.25])      # one-element float arrays, zero width: the scalar-broadcast branch of check_bounds
+        yield "size1-zero-width", (lo4, up4), [lo4, up4]
+        lo5 = np.array(0.5)
+        up5 = np.array(0.5000001)   # 0-d arrays
+        yield "0d-arrays", (lo5, up5), [lo5, up5]
 
 
 def entries():
@@ -114,6 +121,9 @@ def entries():
     E.append(("tools.histogram", "hist1", T.histogram, None))
     E.append(("tools.histogram2d", "hist2", T.histogram2d, None))
     E.append(("tools.histogramdd", "histd", T.histogramdd, None))
+    E.append(("validation.clip_to_bounds", "helper", dp.validation.clip_to_bounds, None))
+    E.append(("validation.clip_to_norm", "helper", dp.validation.clip_to_norm, None))
+    E.append(("validation.check_bounds", "helper", dp.validation.check_bounds, None))
     for nm in ("GaussianNB", "KMeans", "StandardScaler", "LinearRegression", "LogisticRegression", "PCA",
                "RandomForestClassifier", "DecisionTreeClassifier"):
         E.append((f"models.{nm}", "model", getattr(M, nm), None))
@@ -134,7 +144,10 @@ def run_entry(ctx, r, ent, X, layout, bname, bounds, owned_bounds, seed):
         if cls in ("GaussianNB", "LogisticRegression", "RandomForestClassifier", "DecisionTreeClassifier"):
             y = np.array([i % 3 for i in range(n)], dtype=np.int64)
         elif cls == "LinearRegression":
-            y = np.array([r.uniform(-1, 2) for _ in range(n)]).astype(X.dtype if X.dtype.kind == "f" else float)
+            if r.chance(0.5):
+                y = np.array([r.uniform(-1, 2) for _ in range(n)]).astype(X.dtype if X.dtype.kind == "f" else float)
+            else:
+                y = np.array([[r.uniform(-3, 4), r.uniform(-3, 4)] for _ in range(n)], order="F" if r.chance(0.6) else "C")
         if y is not None:
             owned["y"] = y
     w = None
@@ -153,11 +166,21 @@ def run_entry(ctx, r, ent, X, layout, bname, bounds, owned_bounds, seed):
                     fn(arr, epsilon=1.0, axis=ax, random_state=seed)
                 else:
                     b = bounds
-                    if ax is None and bname != "scalar":
+                    if ax is None and bname not in ("scalar", "size1-zero-width", "0d-arrays"):
                         b = (float(np.min(bounds[0])), float(np.max(bounds[1]) + 1))
+                    if ax is not None and bname in ("size1-zero-width", "0d-arrays") and X.ndim == 2 and X.shape[1] != 1:
+                        pass    # broadcast by check_bounds
                     fn(arr, epsilon=1.0, bounds=b, axis=ax, random_state=seed)
+            elif kind == "helper":
+                if name.endswith("clip_to_bounds"):
+                    fn(X, bounds)
+                elif name.endswith("clip_to_norm"):
+                    fn(X if X.dtype.kind == "f" else X.astype(float), 1.0)
+                else:
+                    fn(bounds, X.shape[1] if X.ndim == 2 else 1, min_separation=r.choice([0.0, 1e-5, 0.5]))
             elif kind == "quantile":
-                b = bounds if ax == 0 else ((float(np.min(bounds[0])), float(np.max(bounds[1]) + 1)) if bname != "scalar" else bounds)
+                b = bounds if (ax == 0 or bname in ("scalar", "size1-zero-width", "0d-arrays")) else \
+                    (float(np.min(bounds[0])), float(np.max(bounds[1]) + 1))
                 q = np.array([0.25, 0.5, 0.9])
                 owned["quant"] = q
                 before["quant"] = snap(q)
@@ -196,9 +219,12 @@ def run_entry(ctx, r, ent, X, layout, bname, bounds, owned_bounds, seed):
                     kw["n_estimators"] = 3
                 if cls == "LinearRegression":
                     kw["bounds_X"] = bounds
-                    yb = np.array([-1.0])
-                    yu = np.array([2.0])
-                    kw["bounds_y"] = (yb, yu) if bname != "scalar" else (-1.0, 2.0)
+                    yb = np.array([-1.0]) if y.ndim == 1 else np.array([-1.0, -2.0])
+                    yu = np.array([2.0]) if y.ndim == 1 else np.array([1.0, 2.0])
+                    kw["bounds_y"] = (yb, yu) if (bname != "scalar" or y.ndim == 2) else (-1.0, 2.0)
+                    if bname == "scalar" and y.ndim == 2:
+                        owned["bounds_y[0]"], owned["bounds_y[1]"] = yb, yu
+                        before["bounds_y[0]"], before["bounds_y[1]"] = snap(yb), snap(yu)
                     if bname != "scalar":
                         owned["bounds_y[0]"], owned["bounds_y[1]"] = yb, yu
                         before["bounds_y[0]"], before["bounds_y[1]"] = snap(yb), snap(yu)
